@@ -1,1 +1,2 @@
+pub mod corpus;
 pub mod diff;
